@@ -1,7 +1,8 @@
 (* Extraction of the executable models.  ExtrOcamlBasic only; no Extract Constant. *)
 From Coq Require Extraction.
 From Coq Require Import ExtrOcamlBasic.
-From BS Require Import Base.Arith Model.Queue Model.Term Model.Propensity Model.Interface.
+From BS Require Import Base.Arith Model.Queue Model.Term Model.Propensity Model.Interface Model.Builder.
 Extraction "../ocaml/extracted.ml" mkArith upd
   teval prop_eval massaction_dispatch compute_plain compute_safe need_row
+  species_order build_S build_Sd index_of derivative initialize_ok mkRx
   q_make q_add q_peek q_advance q_set_time q_copy q_clear_copy q_pending q_partition q_offset.
